@@ -21,6 +21,8 @@ META = {
 
 def run(prog, report, tier):
     meshrules.check_exact_mesh(prog, report)
+    # every bisection restores 1-irregularity through the closure
+    meshrules.check_closure(prog, report)
     meshrules.check_marking(prog, report)
     stale.check_drivers(prog, report,
                         only={'Mesh.dorfler_refine_isotropic',
